@@ -161,7 +161,7 @@ func c33Check(c c33Case, r *ev.Rec) error {
 	exec := incremental.New(incremental.WithParallelism(int64(c.Par)))
 	cached := map[int]bool{} // model: memoized keys
 	var runTag int64
-	sawConcurrentShared, sawInnerEvict := false, false
+	sawConcurrentShared, sawInnerEvict, sawRace := false, false, false
 	for step, op := range c.Ops {
 		switch op.Kind {
 		case "evict":
@@ -205,6 +205,67 @@ func c33Check(c c33Case, r *ev.Rec) error {
 					sawInnerEvict = true // a memoized dependent went with the evicted key
 				}
 			}
+		case "race":
+			// Evict racing with a Run: Evict takes the executor's exclusive lock, so it lands before or after the
+			// Run. Whichever way, once both have returned and everything is requested again, no stale value may
+			// be served. Execution counts are not predictable here and are not asserted for this step.
+			var keys []any
+			for _, k := range op.Keys {
+				sys.version[k].Add(1)
+				keys = append(keys, c33Key{sys, k})
+			}
+			var rerr error
+			fin, dump := withWatchdog(20*time.Second, func() {
+				var wg sync.WaitGroup
+				start := make(chan struct{})
+				wg.Add(2)
+				go func() {
+					defer wg.Done()
+					qs := make([]incremental.Query[uint64], len(op.Roots[0]))
+					for i, rt := range op.Roots[0] {
+						qs[i] = c33Query{sys, rt}
+					}
+					runTag++
+					ctx := context.WithValue(context.Background(), c33RunTag{}, runTag)
+					<-start
+					_, _, rerr = incremental.Run(ctx, exec, qs...)
+				}()
+				go func() {
+					defer wg.Done()
+					<-start
+					exec.Evict(keys...)
+				}()
+				close(start)
+				wg.Wait()
+			})
+			if !fin {
+				return fmt.Errorf("step %d: Run racing with Evict did not return\n%s", step, firstLinesOf(dump, 60))
+			}
+			if rerr != nil {
+				return fmt.Errorf("step %d: Run racing with Evict failed: %v", step, rerr)
+			}
+			all := make([]incremental.Query[uint64], c.N)
+			for i := range all {
+				all[i] = c33Query{sys, i}
+			}
+			runTag++
+			res, _, err := incremental.Run(context.WithValue(context.Background(), c33RunTag{}, runTag), exec, all...)
+			if err != nil {
+				return fmt.Errorf("step %d: verification Run failed: %v", step, err)
+			}
+			memo := map[int]uint64{}
+			for i := range all {
+				if res[i].Fatal != nil {
+					return fmt.Errorf("step %d: query %d failed: %v", step, i, res[i].Fatal)
+				}
+				if want := sys.naive(i, memo); res[i].Value != want {
+					return fmt.Errorf("step %d: after Evict(%v) raced with Run(%v), query %d still returns %#x; a fresh computation on the current versions gives %#x (stale result survived)\ncase %+v", step, op.Keys, op.Roots[0], i, res[i].Value, want, c)
+				}
+			}
+			for i := 0; i < c.N; i++ {
+				cached[i] = true
+			}
+			sawRace = true
 		case "run", "crun":
 			before := make([]int64, c.N)
 			for i := range before {
@@ -317,6 +378,9 @@ func c33Check(c c33Case, r *ev.Rec) error {
 	if sawInnerEvict {
 		labels = append(labels, "evicted-key-with-memoized-dependents")
 	}
+	if sawRace {
+		labels = append(labels, "evict-racing-with-run")
+	}
 	labels = append(labels, fmt.Sprintf("par=%d", c.Par))
 	r.Case(ev.JSONFP(c), nt, labels...)
 	r.LabelN("steps", len(c.Ops))
@@ -368,6 +432,8 @@ func c33Gen(t *rapid.T) c33Case {
 				op.Roots = append(op.Roots, subset("croot", 1))
 			}
 			c.Ops = append(c.Ops, op)
+		case 7:
+			c.Ops = append(c.Ops, c33Op{Kind: "race", Roots: [][]int{subset("raceroot", 1)}, Keys: subset("racekeys", 1)})
 		default:
 			c.Ops = append(c.Ops, c33Op{Kind: "evict", Keys: subset("evict", 1)})
 		}
@@ -377,7 +443,7 @@ func c33Gen(t *rapid.T) c33Case {
 
 func TestC33_Histories(t *testing.T) {
 	ev.Run(t, ev.Spec[c33Case]{ID: "C33", Name: "Histories", Quick: 1500, Thorough: 60000,
-		Rule: "random DAGs of 2-8 deterministic queries (value = hash of the node's version and its children's values; children resolved in 1-3 Resolve batches; generated processor yields around the Resolve calls) on one long-lived executor with parallelism 1-8, driven by a generated history of 2-8 operations: Run(root set), 2-4 concurrent Runs released together, Evict(key set) after bumping those keys' versions; reference model: a set of memoized keys (a Run adds what it needed; Evict removes the keys and every memoized transitive dependent); oracle after every Run step: each root value equals a fresh recursive computation on the current versions; per-key execution counters advanced by exactly 1 for needed keys outside the model's memoized set and by 0 otherwise (also across concurrent Runs: one execution in total); no key executes twice at the same time; Result.Changed, as seen by every Resolve caller and on Run's own results, is true exactly when the key was computed in this step by the observing Run; race detector on; non-trivial = history with concurrent Runs sharing a key that had to be computed and an eviction that takes a memoized dependent with it; distinct by case",
+		Rule: "random DAGs of 2-8 deterministic queries (value = hash of the node's version and its children's values; children resolved in 1-3 Resolve batches; generated processor yields around the Resolve calls) on one long-lived executor with parallelism 1-8, driven by a generated history of 2-8 operations: Run(root set), 2-4 concurrent Runs released together, Evict(key set) after bumping those keys' versions, and Evict racing with a Run (after which everything is requested again and must be fresh); reference model: a set of memoized keys (a Run adds what it needed; Evict removes the keys and every memoized transitive dependent); oracle after every Run step: each root value equals a fresh recursive computation on the current versions; per-key execution counters advanced by exactly 1 for needed keys outside the model's memoized set and by 0 otherwise (also across concurrent Runs: one execution in total); no key executes twice at the same time; Result.Changed, as seen by every Resolve caller and on Run's own results, is true exactly when the key was computed in this step by the observing Run; race detector on; non-trivial = history with concurrent Runs sharing a key that had to be computed and an eviction that takes a memoized dependent with it; distinct by case",
 		Gen:  c33Gen, Check: c33Check})
 }
 
